@@ -242,6 +242,11 @@ func (tst *tsTable) TakeFileSnapshot(dst string) (success bool, err error) {
 func (tst *tsTable) createMetadata(dst string, snapshot *snapshot) {
 	var partNames []string
 	for i := range snapshot.parts {
+		if snapshot.parts[i].mp != nil {
+			// memory parts are not hard-linked into the file snapshot: listing them would
+			// make the manifest name parts that the snapshot does not contain
+			continue
+		}
 		partNames = append(partNames, partName(snapshot.parts[i].ID()))
 	}
 	data, err := json.Marshal(partNames)
@@ -259,6 +264,10 @@ func (tst *tsTable) createMetadata(dst string, snapshot *snapshot) {
 	}
 	if n != len(data) {
 		logger.Panicf("unexpected number of bytes written to %s; got %d; want %d", snapshotPath, n, len(data))
+	}
+	// closing syncs the manifest and releases the descriptor
+	if closeErr := lf.Close(); closeErr != nil {
+		logger.Panicf("cannot close snapshot %s: %s", snapshotPath, closeErr)
 	}
 }
 
